@@ -154,6 +154,7 @@ type Exec struct {
 	opaqueSeq int
 	memo      map[string]Value
 	known     map[*Term]bool
+	lenBounds map[*Term]int
 	model     *Model // a model of the current path condition (nil if none is at hand)
 	modelMemo map[int]uint64
 	stubNested bool
@@ -309,6 +310,7 @@ func (e *Exec) resetPath() {
 	e.opaqueSeq = 0
 	e.memo = map[string]Value{}
 	e.known = map[*Term]bool{}
+	e.lenBounds = map[*Term]int{}
 	e.stubNested = false
 	e.snaps = nil
 	e.pnotes = nil
